@@ -49,8 +49,12 @@ func splitClean(s string) (out []cleanDecl, layout string) {
 		if t != strings.TrimPrefix(d, " ") && layout == "plain" {
 			layout = "whitespace-around-separator"
 		}
-		if !cleanPieceRe.MatchString(t) {
+		// an escaped backslash (two backslashes) is a complete escape and as plain as a letter
+		if !cleanPieceRe.MatchString(strings.ReplaceAll(t, `\\`, "zz")) {
 			return nil, ""
+		}
+		if strings.Contains(t, `\\`) && layout == "plain" {
+			layout = "escaped-backslash"
 		}
 		k := strings.Index(t, ":")
 		out = append(out, cleanDecl{t[:k], strings.TrimLeft(t[k+1:], ws)})
@@ -244,7 +248,7 @@ func c10Judge(cs *core.Case, ob *Obs, lc core.LocalCounts) {
 		judgedAny = true
 		var must []string
 		for _, d := range inDecls {
-			if anyStyleAccepts(sp.StyleRulesStrict(it.Name, bareProp(d.prop)), strings.ToLower(d.val)) {
+			if anyStyleAccepts(sp.StyleRulesStrict(it.Name, bareProp(d.prop)), oracle.DecodeCSSEscapes(strings.ToLower(d.val))) {
 				must = append(must, d.prop+": "+d.val)
 			}
 		}
